@@ -111,7 +111,7 @@ static std::string handle_reset(std::vector<std::string> const& a)
          " witness=" + std::to_string(witness) + "/" + std::to_string(rounds) + " held=" + std::to_string(held);
 }
 
-// case: timeo <events>   events ',' separated:  Z<ms> = server.set_timeout(ms) (on the event loop's thread), A = a client connects and sends a request
+// case: timeo <events>   events ',' separated:  Z<ms> = server.set_timeout(ms), Y<0|1> = server.set_keep_alive(b) (both on the event loop's thread), A = a client connects and sends a request
 //   the request handler reads SO_RCVTIMEO / SO_SNDTIMEO back from the accepted socket.  The server is listening before the first event.
 // output: timeo=<rcv sec>.<usec>/<snd sec>.<usec>,...   one per A
 static std::string handle_timeo(std::vector<std::string> const& a)
@@ -147,7 +147,14 @@ static std::string handle_timeo(std::vector<std::string> const& a)
   for (auto const& e : hu::split(a[0], ','))
   {
     if (e.empty()) continue;
-    if (e[0] == 'Z')
+    if (e[0] == 'Y')
+    {
+      bool on = e.substr(1) == "1";
+      auto p = std::make_shared<std::promise<void>>(); auto f = p->get_future();
+      boost::asio::post(io, [p, &server, on]() { server.set_keep_alive(on); p->set_value(); });
+      f.wait_for(std::chrono::seconds(5));
+    }
+    else if (e[0] == 'Z')
     {
       int ms = std::stoi(e.substr(1));
       auto p = std::make_shared<std::promise<void>>(); auto f = p->get_future();
